@@ -201,14 +201,13 @@ Proof.
   { eapply MaskInv_fold_put; [|exact MaskInv_new|exact E0]. intros s. apply In_squares. }
   destruct (negb (popcount (N.land (m_king b0) (m_white b0)) =? 1)); [discriminate|].
   destruct (negb (popcount (N.land (m_king b0) (m_black b0)) =? 1)); [discriminate|].
-  apply bind_ok in E. destruct E as (b6 & E6 & E). apply bind_ok in E. destruct E as (b7 & E7 & E).
-  apply bind_ok in E. destruct E as (h & Eh & E). apply bind_ok in E. destruct E as (v & _ & E).
-  destruct v; [discriminate|]. injection E as <-.
-  assert (I7 : MaskInv b7).
-  { eapply MaskInv_update_terminal; [|exact E7]. eapply MaskInv_update_pins; [|exact E6].
+  apply bind_ok in E. destruct E as (b6 & E6 & E). apply bind_ok in E. destruct E as (h & Eh & E).
+  apply bind_ok in E. destruct E as (v & _ & E). destruct v; [discriminate|].
+  assert (I6 : MaskInv b6).
+  { eapply MaskInv_update_pins; [|exact E6].
     apply MaskInv_with_clocks, MaskInv_set_castling, MaskInv_set_castling, MaskInv_set_ep, MaskInv_set_side, I0. }
-  split.
-  - revert I7. apply MaskInv_ext. reflexivity.
+  eapply Inv_update_terminal; [|exact E]. split.
+  - revert I6. apply MaskInv_ext. reflexivity.
   - now apply HashInv_with_calc.
 Qed.
 End Moves.
